@@ -104,3 +104,14 @@ func firstSampleDiff(got, want []byte, p int) (idx int, g, w int) {
 	}
 	return -1, 0, 0
 }
+
+// areaSizes returns geometries whose pixel count is on both sides of 2^16 while neither
+// dimension is large (16-bit products of the two are the realistic slip): all of them in
+// the thorough tier, 256x256 plus one rotating with the seed in the quick tier.
+func areaSizes(th bool, seed uint64) [][2]int {
+	all := [][2]int{{256, 256}, {255, 257}, {257, 256}, {300, 301}, {513, 128}, {128, 513}, {362, 363}}
+	if th {
+		return all
+	}
+	return [][2]int{all[0], all[1+int(seed%uint64(len(all)-1))]}
+}
